@@ -275,6 +275,12 @@ def build_request(uni, in_prot, rclass, rng):
         r.label = ('multi', 'malformed')
         return r
     if kind == 'wsdl':
+        if len(rclass) > 1 and rclass[1] == 'badhost':
+            # a Host header lxml refuses as an attribute value: the build
+            # fails for this requester
+            r = wsdl_request(host='sim\x01.invalid')
+            r.label = ('?wsdl', 'wsdl-badhost')
+            return r
         return wsdl_request()
     if kind == 'envelope':
         return _bad_envelope(uni, in_prot, rclass[1])
@@ -289,6 +295,53 @@ def build_request(uni, in_prot, rclass, rng):
         else:
             r.verb = rclass[1]
         r.label = ('multi', 'verb')
+        return r
+    if kind == 'multipart':
+        # SOAP with attachments: the same valid document inside a
+        # multipart/related body, well-formed or broken in one way
+        base = encode_request(uni, in_prot, 'multi', {'a': 3})
+        if base.verb == 'GET':
+            base.label = ('multi', 'multipart')
+            return base
+        how = rclass[1]
+        bnd = b'SIMBND'
+
+        def mp(parts):
+            out = b''
+            for hdrs, payload in parts:
+                out += b'--' + bnd + b'\r\n' + hdrs + b'\r\n\r\n' + \
+                                                         payload + b'\r\n'
+            return out + b'--' + bnd + b'--\r\n'
+        root = (b'Content-Type: text/xml\r\nContent-ID: <root>', base.body)
+        att = (b'Content-Type: application/octet-stream\r\n'
+               b'Content-ID: <att1>', b'abc')
+        ctype = 'multipart/related; boundary=SIMBND; start="<root>"'
+        if how == 'ok':
+            body = mp([root, att])
+        elif how == 'no_cid':
+            body = mp([root, (b'Content-Type: application/octet-stream',
+                              b'abc')])
+        elif how == 'attach_first':
+            body = mp([att, root])
+        elif how == 'bad_charset':
+            body = mp([root])
+            ctype += '; charset=no-such-charset'
+        elif how == 'nonascii_boundary':
+            body = base.body
+            ctype = 'multipart/related; boundary="\xe9"'
+        elif how == 'no_boundary':
+            body = mp([root])
+            ctype = 'multipart/related'
+        elif how == 'no_root':
+            body = mp([att])
+        elif how == 'truncated':
+            body = mp([root, att])
+            body = body[:len(body) // 2]
+        else:
+            body = b''
+        r = base.with_body(body)
+        r.ctype = ctype
+        r.label = ('multi', 'multipart')
         return r
     if kind == 'charset':
         # a valid document under a Content-Type that lies about the charset
